@@ -554,3 +554,52 @@ def stratified(prog):
         if isinstance(e, (KeyboardInterrupt, SystemExit)):
             raise
         return None
+
+
+# ---------------------------------------------------------------------------- judging
+
+def mode_family(mode):
+    return mode.split(":")[0]
+
+
+def is_query_line(line):
+    s = line.strip()
+    return s.startswith("query(") or s.startswith("evidence(")
+
+
+def isolated_error_classes(lines, timeout=10):
+    """Error classes the default engine reports when each query/evidence
+    statement is kept alone (grounding only).  A program with several
+    independent error sources legitimately reports whichever is reached first."""
+    base = [l for l in lines if not is_query_line(l)]
+    out = set()
+    for l in lines:
+        if is_query_line(l):
+            r = run_mode({"src": "\n".join(base + [l])}, "default", timeout, None, True)
+            if r["status"] == "err":
+                out.add(r["err"])
+    return out
+
+
+def judge(prog, base, r, lines=None):
+    """Returns (verdict, klass, what): verdict in agree | order-only | timeout | multi-error | violation."""
+    if base["err"] == "Timeout" or r["err"] == "Timeout":
+        return ("timeout", None, None)
+    d = same(base, r)
+    if d is None:
+        return ("order-only" if same(base, r, exact=True) else "agree", None, None)
+    fam = mode_family(r["mode"])
+    errs = {base["err"], r["err"]}
+    ab = [x for x in (base, r) if x["err"] == "INTERNAL:AssertionError"]
+    if ab and all(x.get("errwhere") == "eval_nodes.py:__setitem__" for x in ab) and len(errs) == 2:
+        return ("violation", "%s:assertion-resultset-only-under-some-orders" % fam, d)
+    if "NegativeCycle" in errs and len(errs) == 2:
+        strat = stratified(prog)
+        if strat:
+            return ("violation", "%s:negative-cycle-raised-on-stratified-program-under-some-orders" % fam, d)
+    if base["status"] == "err" and r["status"] == "err":
+        if lines is not None:
+            iso = isolated_error_classes(lines)
+            if r["err"] in iso and base["err"] in iso:
+                return ("multi-error", None, d)
+    return ("violation", "%s:unclassified:%s" % (fam, d.split(":")[0].replace(" ", "-").replace("/", "-")), d)
